@@ -25,7 +25,11 @@ type GenCfg struct {
 	MultiEditPct int                                     // percent of edit steps that put 2-3 edits in one Update
 	EditPct      int                                     // default 60
 	Guard        func(w *World, r int, e *gen.Edit) bool // returns false to veto an edit (known-finding fences)
+	WireNoGCPct  int                                     // percent of attaches that opt out of GC on the wire (such replicas only make counter / primitive edits)
 }
+
+// noGCProfile is what a replica attached with disable_gc may do (docs/design/disable-gc-on-attach.md).
+var noGCProfile = gen.Profile{Obj: 1, Cnt: 3, DeleteBias: 0, NewContainers: 0, MaxDepth: 1, NoDedup: true, PrimOnly: true}
 
 // RunGenerated generates and executes a history step by step.
 func (w *World) RunGenerated(rng *rand.Rand, g GenCfg) History {
@@ -40,8 +44,14 @@ func (w *World) RunGenerated(rng *rand.Rand, g GenCfg) History {
 	do(Step{T: "attach", R: 0, Pres: map[string]string{"n": "r0"}})
 	do(Step{T: "edit", R: 0, E: gen.InitEdits()})
 	do(Step{T: "sync", R: 0})
+	noGC := map[int]bool{}
 	for i := 1; i < g.N; i++ {
-		do(Step{T: "attach", R: i, Pres: map[string]string{"n": fmt.Sprintf("r%d", i)}})
+		st := Step{T: "attach", R: i, Pres: map[string]string{"n": fmt.Sprintf("r%d", i)}}
+		if rng.Intn(100) < g.WireNoGCPct {
+			st.WireNoGC = true
+			noGC[i] = true
+		}
+		do(st)
 	}
 	offline := -1
 	offlineLeft := 0
@@ -53,13 +63,18 @@ func (w *World) RunGenerated(rng *rand.Rand, g GenCfg) History {
 	for s := 0; s < g.Steps && !w.Dead; s++ {
 		// occasionally bring in a late attacher or re-attach a detached one
 		if len(w.Reps) < g.MaxReps && rng.Intn(100) < 3 {
-			do(Step{T: "attach", R: len(w.Reps), Pres: map[string]string{"n": "late"}})
+			st := Step{T: "attach", R: len(w.Reps), Pres: map[string]string{"n": "late"}}
+			if rng.Intn(100) < g.WireNoGCPct {
+				st.WireNoGC = true
+				noGC[st.R] = true
+			}
+			do(st)
 			continue
 		}
 		if len(detached) > 0 && rng.Intn(100) < 30 {
 			for r := range detached {
 				delete(detached, r)
-				do(Step{T: "attach", R: r, Pres: map[string]string{"n": "again"}})
+				do(Step{T: "attach", R: r, Pres: map[string]string{"n": "again"}, WireNoGC: noGC[r]})
 				break
 			}
 			continue
@@ -103,14 +118,18 @@ func (w *World) RunGenerated(rng *rand.Rand, g GenCfg) History {
 			// one Update; so only the first edit is state-dependent and the
 			// rest target different container kinds via fresh scans is skipped:
 			// we simply generate n edits for disjoint root containers.
-			conts := gen.Scan(r.Doc.Root().Object, g.Profile.MaxDepth)
+			prof := g.Profile
+			if noGC[ri] {
+				prof = noGCProfile
+			}
+			conts := gen.Scan(r.Doc.Root().Object, prof.MaxDepth)
 			var es []gen.Edit
 			used := map[string]bool{}
 			for k := 0; k < n; k++ {
 				var e gen.Edit
 				ok := false
 				for try := 0; try < 6; try++ {
-					e = g.Profile.Next(rng, conts, r.Name)
+					e = prof.Next(rng, conts, r.Name)
 					top := e.K
 					if len(e.Path) > 0 {
 						top = e.Path[0]
@@ -145,9 +164,20 @@ func (w *World) RunGenerated(rng *rand.Rand, g GenCfg) History {
 				do(Step{T: "sync", R: ri, PushOnly: rng.Intn(100) < g.PushOnlyPct})
 			}
 		case x < g.EditPct+25+g.DetachPct:
-			if len(cand) > 1 && r.Pending == nil {
+			// Fence of recorded finding F-SNAPVV-EMPTY: never let the set of
+			// attached GC-participating replicas become empty (a snapshot stored
+			// at such a moment persists an empty version vector).
+			others := 0
+			for _, ci := range cand {
+				if ci != ri && !noGC[ci] {
+					others++
+				}
+			}
+			if others >= 1 && r.Pending == nil {
 				do(Step{T: "detach", R: ri})
 				detached[ri] = true
+			} else {
+				w.GuardVetoes["detach_last_participant"]++
 			}
 		case x < g.EditPct+25+g.DetachPct+g.QuiescePct:
 			do(Step{T: "quiesce"})
